@@ -16,60 +16,16 @@
    The leaf enumerations of minidump-common/src/errors (about 6000 named codes) are NOT
    modelled: membership is the function parameter [lk : enum id -> value -> bool].
    Definitions only; proofs are in C14/Proofs.v. *)
-From RM Require Export Base.Word C08.Model Gen.C14Names.
+From RM Require Export Base.Word C08.Model Gen.C14Names C14.Types.
 Open Scope Z_scope.
 
-(* ------------------------------------------------------------------ platform *)
-Inductive os := OsWindows | OsMac | OsIos | OsLinux | OsSolaris | OsAndroid | OsPs3 | OsNaCl | OsUnknown.
-Inductive cpu := X86 | X86_64 | Ppc | Ppc64 | Sparc | Arm | Arm64 | Mips | Mips64 | CpuUnknown.
-Inductive pwidth := W32 | W64 | WUnknown.
-
-Definition os_of_platform (id : Z) : os :=
-  if (id =? 2) || (id =? 3) then OsWindows
-  else if id =? 33025 then OsMac          (* 0x8101 *)
-  else if id =? 33026 then OsIos          (* 0x8102 *)
-  else if id =? 33281 then OsLinux        (* 0x8201 *)
-  else if id =? 33282 then OsSolaris
-  else if id =? 33283 then OsAndroid
-  else if id =? 33284 then OsPs3
-  else if id =? 33285 then OsNaCl
-  else OsUnknown.
-
-Definition cpu_of_arch (a : Z) : cpu :=
-  if (a =? 0) || (a =? 10) then X86
-  else if a =? 9 then X86_64
-  else if a =? 3 then Ppc
-  else if a =? 32770 then Ppc64           (* 0x8002 *)
-  else if a =? 32769 then Sparc           (* 0x8001 *)
-  else if a =? 5 then Arm
-  else if (a =? 12) || (a =? 32771) then Arm64   (* 0x8003 = ARM64_OLD *)
-  else if a =? 1 then Mips
-  else if a =? 32772 then Mips64          (* 0x8004 *)
-  else CpuUnknown.
-
-Definition pointer_width (c : cpu) : pwidth :=
-  match c with
-  | X86 | Ppc | Sparc | Arm | Mips => W32
-  | X86_64 | Ppc64 | Arm64 | Mips64 => W64
-  | CpuUnknown => WUnknown
-  end.
-
-(* MinidumpContext::read has an arm for these raw architectures only (MIPS64 has none) *)
-Definition arch_has_context (a : Z) : bool :=
-  (a =? 0) || (a =? 10) || (a =? 9) || (a =? 3) || (a =? 32770) || (a =? 32769) ||
-  (a =? 5) || (a =? 12) || (a =? 32771) || (a =? 1).
-
 (* ------------------------------------------------------------------ the dump *)
-Record ctx := { c_ip : Z; c_sp : Z }.
 
 (* [t_ctx] = result of thread.context(): Some when the bytes parse as the CPU's context.
    [t_stack] = index into the memory list when the thread's own stack descriptor is readable
    (data_size <> 0, rva <> 0); [t_sbase] = stack.start_of_memory_range *)
 Record thread := { t_id : Z; t_ctx : option ctx; t_stack : option Z; t_sbase : Z }.
 
-Record exception := {
-  e_tid : Z; e_code : Z; e_flags : Z; e_nparams : Z;
-  e_info0 : Z; e_info1 : Z; e_info2 : Z; e_addr : Z; e_ctx : option ctx }.
 
 Record breakpad := { b_validity : Z; b_dump_tid : Z; b_req_tid : Z }.
 Record misc := { mi_flags1 : Z; mi_pid : Z; mi_ctime : Z }.
@@ -81,7 +37,7 @@ Record dump := {
   d_exc : option exception;
   d_bp : option breakpad;
   d_misc : option misc;
-  d_status_pid : option Z;                (* Linux /proc/self/status stream: the parsed Pid *)
+  d_status : option (list Z);             (* Linux /proc/self/status stream: its bytes *)
   d_modules : list (Z * Z);               (* base, size_of_image *)
   d_unloaded : list (Z * Z * Z);          (* base, size_of_image, name *)
   d_mems : list (Z * Z) }.                (* memory list regions (non-empty), base, size *)
@@ -195,36 +151,8 @@ Definition crash_address (o : os) (c : cpu) (e : exception) : Z :=
   match pointer_width c with W32 => wrap32 a | _ => a end.
 
 (* ------------------------------------------------------------------ crash reason skeleton *)
-(* enumeration ids for [lk] *)
-Definition EN_WIN_EXC := 1.      Definition EN_WIN_ERROR := 2.   Definition EN_WIN_NTSTATUS := 3.
-Definition EN_WIN_FACILITY := 4. Definition EN_WIN_ACCESS := 5.  Definition EN_WIN_INPAGE := 6.
-Definition EN_LINUX := 10.       Definition EN_SIGILL := 11.     Definition EN_SIGTRAP := 12.
-Definition EN_SIGFPE := 13.      Definition EN_SIGSEGV := 14.    Definition EN_SIGBUS := 15.
-Definition EN_SIGSYS := 16.
-Definition EN_MAC := 20.         Definition EN_MAC_KERN := 21.
-Definition EN_MAC_ACC_ARM := 22. Definition EN_MAC_ACC_PPC := 23. Definition EN_MAC_ACC_X86 := 24.
-Definition EN_MAC_INS_ARM := 25. Definition EN_MAC_INS_PPC := 26. Definition EN_MAC_INS_X86 := 27.
-Definition EN_MAC_ARI_ARM := 28. Definition EN_MAC_ARI_PPC := 29. Definition EN_MAC_ARI_X86 := 30.
-Definition EN_MAC_SOFTWARE := 31.
-Definition EN_MAC_BRK_ARM := 32. Definition EN_MAC_BRK_PPC := 33. Definition EN_MAC_BRK_X86 := 34.
-Definition EN_MAC_RESOURCE := 35. Definition EN_MAC_GUARD := 36.
-
-(* the variants of CrashReason, in declaration order, with the numeric value of every payload *)
-Inductive family :=
-| MacGeneral | MacBadAccessKern | MacBadAccessArm | MacBadAccessPpc | MacBadAccessX86
-| MacBadInstructionArm | MacBadInstructionPpc | MacBadInstructionX86
-| MacArithmeticArm | MacArithmeticPpc | MacArithmeticX86 | MacSoftware
-| MacBreakpointArm | MacBreakpointPpc | MacBreakpointX86 | MacResource | MacGuard
-| LinuxGeneral | LinuxSigill | LinuxSigtrap | LinuxSigbus | LinuxSigfpe | LinuxSigsegv | LinuxSigsys
-| WindowsGeneral | WindowsWinError | WindowsWinErrorWithFacility | WindowsNtStatus
-| WindowsAccessViolation | WindowsInPageError | WindowsStackBufferOverrun | WindowsUnknown
-| Unknown.
-Definition reason := (family * list Z)%type.
-
 Section Reason.
 Variable lk : Z -> Z -> bool.
-
-Definition low32 (x : Z) : Z := Z.land x 4294967295.
 
 (* from_windows_code + from_windows_error + from_windows_error_with_facility *)
 Definition windows_code (code : Z) : reason :=
@@ -397,13 +325,67 @@ Definition reason_string (r : reason) : option (list Z) :=
   | _ => None
   end.
 
+(* ------------------------------------------------------------------ /proc/self/status -> Pid *)
+(* minidump.rs linux_list_iter(data, b':') (lines split at every 0x0a, split_once at the first ':', both halves
+   trimmed of ASCII whitespace and of one pair of surrounding double quotes) and process_state.rs
+   LinuxProcStatus::from: the FIRST entry whose key is "Pid", its value parsed as u32 (str::parse: optional '+', at
+   least one ASCII digit, nothing else, no overflow), 0 when there is no such entry or it does not parse. *)
+Definition is_ws (b : Z) : bool := (b =? 32) || (b =? 9) || (b =? 10) || (b =? 12) || (b =? 13).   (* u8::is_ascii_whitespace *)
+Fixpoint split_on (sep : Z) (s : list Z) : list (list Z) :=           (* slice::split: one piece more than separators *)
+  match s with
+  | [] => [[]]
+  | b :: r => if b =? sep then [] :: split_on sep r
+              else match split_on sep r with h :: t => (b :: h) :: t | [] => [[b]] end
+  end.
+Fixpoint split_once (sep : Z) (s : list Z) : option (list Z * list Z) :=
+  match s with
+  | [] => None
+  | b :: r => if b =? sep then Some ([], r)
+              else match split_once sep r with Some (k, v) => Some (b :: k, v) | None => None end
+  end.
+Fixpoint trim_front (s : list Z) : list Z :=
+  match s with b :: r => if is_ws b then trim_front r else s | [] => [] end.
+Definition trim (s : list Z) : list Z := rev (trim_front (rev (trim_front s))).
+Definition strip_quotes (s : list Z) : list Z :=
+  let t := trim s in
+  match t with
+  | 34 :: r => match rev r with 34 :: m => rev m | _ => t end
+  | _ => t
+  end.
+Definition kv_of_line (line : list Z) : option (list Z * list Z) :=
+  match split_once 58 line with Some (k, v) => Some (strip_quotes k, strip_quotes v) | None => None end.
+Definition is_digit (b : Z) : bool := (48 <=? b) && (b <=? 57).
+Fixpoint digits_value (acc : Z) (s : list Z) : option Z :=           (* checked accumulate, u32 *)
+  match s with
+  | [] => Some acc
+  | b :: r => if is_digit b then
+                let acc' := acc * 10 + (b - 48) in
+                if acc' <=? 4294967295 then digits_value acc' r else None
+              else None
+  end.
+Definition parse_u32 (s : list Z) : option Z :=
+  let body := match s with 43 :: r => r | _ => s end in
+  match body with [] => None | _ => digits_value 0 body end.
+Definition KEY_PID : list Z := [80; 105; 100].
+Fixpoint pid_of_lines (lines : list (list Z)) : Z :=
+  match lines with
+  | [] => 0
+  | l :: rest =>
+      match kv_of_line l with
+      | Some (k, v) => if zlist_eqb k KEY_PID then match parse_u32 v with Some n => n | None => 0 end
+                       else pid_of_lines rest
+      | None => pid_of_lines rest
+      end
+  end.
+Definition status_pid (text : list Z) : Z := pid_of_lines (split_on 10 text).
+
 (* ------------------------------------------------------------------ pid / create time *)
 Definition MISC1_PROCESS_ID : Z := 0.      (* bit numbers of MiscInfoFlags *)
 Definition MISC1_PROCESS_TIMES : Z := 1.
 Definition process_id (d : dump) : option Z :=
   match d_misc d with
   | Some m => if Z.testbit (mi_flags1 m) MISC1_PROCESS_ID then Some (mi_pid m) else None
-  | None => d_status_pid d
+  | None => option_map status_pid (d_status d)
   end.
 Definition process_create_time (d : dump) : option Z :=
   match d_misc d with
@@ -447,3 +429,8 @@ Definition frame_unloaded (p : profile) (d : dump) (x : Z) : outcome (list (Z * 
   | Some _ => Ret []
   | None => offsets_of p u x (unloaded_at (unloaded_build (unloaded_ranges u)) x)
   end.
+
+(* ------------------------------------------------------------------ documented refinements *)
+(* EXCEPTION_RECORD (winnt.h / MSDN): ExceptionInformation[0] of an access violation / in-page error is
+   0 (read), 1 (write) or 8 (data execution prevention) *)
+Definition documented_access (v : Z) : bool := (v =? 0) || (v =? 1) || (v =? 8).
